@@ -1372,31 +1372,44 @@ func c02EvalLocPathGate(w *World) (*types.Var, string) {
 	ctxKey := sym.Key(f.Params[1], nil)
 	var toggle *types.Var
 	var incr *ssa.Store
-	for _, b := range f.Blocks {
-		for _, in := range b.Instrs {
-			st, ok := in.(*ssa.Store)
-			if !ok {
-				continue
-			}
-			fa, ok := st.Addr.(*ssa.FieldAddr)
-			if !ok || fa.X != ssa.Value(f.Params[1]) {
-				continue
-			}
-			bo, ok := st.Val.(*ssa.BinOp)
-			if !ok || bo.Op != token.ADD {
-				continue
-			}
-			if one, ok := intConstOf(bo.Y); !ok || one != 1 {
-				continue
-			}
-			if ld, ok := bo.X.(*ssa.UnOp); ok && ld.Op == token.MUL {
-				if fa2, ok := ld.X.(*ssa.FieldAddr); ok && fa2.X == fa.X && fa2.Field == fa.Field {
-					stt := fa.X.Type().Underlying().(*types.Pointer).Elem().Underlying().(*types.Struct)
-					if toggle != nil {
-						return nil, "two counters are incremented in EvalLocPath — not decided"
+	// the run's context: the parameter of that type, here or in a helper of the package that is handed it
+	isCtxParam := func(v ssa.Value) bool {
+		prm, ok := v.(*ssa.Parameter)
+		return ok && types.Identical(prm.Type(), f.Params[1].Type())
+	}
+	var cone []*ssa.Function
+	for _, g := range bodiesDeep(f, 1) {
+		if g == f || (g.Pkg == f.Pkg && g.Parent() == nil && g.Object() != types.Object(inner)) {
+			cone = append(cone, g)
+		}
+	}
+	for _, g := range cone {
+		for _, b := range g.Blocks {
+			for _, in := range b.Instrs {
+				st, ok := in.(*ssa.Store)
+				if !ok {
+					continue
+				}
+				fa, ok := st.Addr.(*ssa.FieldAddr)
+				if !ok || !isCtxParam(fa.X) {
+					continue
+				}
+				bo, ok := st.Val.(*ssa.BinOp)
+				if !ok || bo.Op != token.ADD {
+					continue
+				}
+				if one, ok := intConstOf(bo.Y); !ok || one != 1 {
+					continue
+				}
+				if ld, ok := bo.X.(*ssa.UnOp); ok && ld.Op == token.MUL {
+					if fa2, ok := ld.X.(*ssa.FieldAddr); ok && fa2.X == fa.X && fa2.Field == fa.Field {
+						stt := fa.X.Type().Underlying().(*types.Pointer).Elem().Underlying().(*types.Struct)
+						if toggle != nil {
+							return nil, "two counters are incremented in EvalLocPath — not decided"
+						}
+						toggle = stt.Field(fa.Field)
+						incr = st
 					}
-					toggle = stt.Field(fa.Field)
-					incr = st
 				}
 			}
 		}
@@ -1434,7 +1447,7 @@ func c02EvalLocPathGate(w *World) (*types.Var, string) {
 				continue
 			}
 			if ld, ok := rem.X.(*ssa.UnOp); ok && ld.Op == token.MUL {
-				if fa, ok := ld.X.(*ssa.FieldAddr); ok && fa.X == ssa.Value(f.Params[1]) {
+				if fa, ok := ld.X.(*ssa.FieldAddr); ok && isCtxParam(fa.X) {
 					st := fa.X.Type().Underlying().(*types.Pointer).Elem().Underlying().(*types.Struct)
 					if st.Field(fa.Field) == toggle {
 						return true
